@@ -63,7 +63,7 @@ def main():
             'summary': meta_in.get('summary'),
             'needs': meta_in.get('needs'),
             'files': meta_in.get('files'),
-            'origin': 'independent sub-agent given only the property text and a scratch worktree',
+            'origin': meta_in.get('origin', 'independent sub-agent given only the property text and a scratch worktree'),
             'confirmed': {
                 'demo_exit_clean': rc_clean, 'demo_exit_changed': rc_mut,
                 'documented_suite_with_change': suite.strip(), 'pinned_suite_with_change': pinned.strip(),
